@@ -75,8 +75,8 @@ let rec diff path (m : Tree.nt) (i : Tree.nt) : string =
 let show_ev = function Tree.EvFree (p, o) -> Printf.sprintf "F:%s:%s" (string_of_n p) (string_of_n o) | Tree.EvAlloc n -> Printf.sprintf "A:%s" (string_of_n n)
 
 let run mode file =
-  let want04 = (mode = "tree04" || mode = "ntree04") and want07 = (mode = "tree07" || mode = "ntree07") in
-  let nested = (mode = "ntree04" || mode = "ntree07") in
+  let want04 = (mode = "tree04" || mode = "ntree04") and want07 = (mode = "tree07" || mode = "ntree07") and want12 = (mode = "ntree12") in
+  let nested = (mode = "ntree04" || mode = "ntree07" || mode = "ntree12") in
   let ic = open_in file in
   let cases = ref 0 and ops = ref 0 in
   let case_id = ref "" and ps = ref BinNums.N0 and fill = ref BinNums.N0 and inline = ref false in
@@ -136,7 +136,7 @@ let run mode file =
           if minl <> iinl then report want04 "MISMATCH" "parent_inline_decision" (string_of_bool iinl) (string_of_bool minl);
           (* the published format: an inline bucket holds plain key/value pairs only - a nested bucket inside it is walked by no page walker *)
           if iinl && List.exists (fun (x : Node.inode) -> int_of_n x.Node.i_flags land 1 = 1) (ins p) then
-            report want07 "PROPFAIL" "inline_bucket_holds_no_bucket" "an inline bucket holds a nested bucket entry" "never inline";
+            report (want07 || want12) "PROPFAIL" "inline_bucket_holds_no_bucket" "an inline bucket holds a nested bucket entry" "never inline";
           let d = ndiff "" mt p in
           if d <> "" then report want04 "MISMATCH" "parent_tree_after_commit" d "see impl";
           let iev = !fl in
